@@ -134,7 +134,7 @@ pub struct RefWorld {
   nodes: Vec<RNode>,
   /// events delivered to recorders since the last drain: (recorder id, event)
   pub out: Vec<(u32, Ev)>,
-  all: Vec<(u32, Ev)>,
+  pub all: Vec<(u32, Ev)>,
   pub tap_log: Vec<Ev>,
   /// a polite endless producer hit its cap although nobody listens: never happens in the reference
   pub roots: Vec<usize>,
@@ -145,6 +145,11 @@ pub struct RefWorld {
   pub feeds: Vec<(u32, crate::s_run::Trig, usize, Ev, bool)>,
   /// at every subscription of a source (src, instance): alive and lazy flags of every instance
   pub sub_snaps: Vec<(usize, usize, Vec<Vec<bool>>, Vec<Vec<bool>>)>,
+  /// (recorder, trigger, fired): the recorder's callback unsubscribes its own root
+  pub self_unsubs: Vec<(u32, crate::s_run::Trig, bool)>,
+  pub subscribe_returned: Vec<u32>,
+  /// inner recorders (of window/group_by inner observables) the driver has unsubscribed
+  pub inner_unsubscribed: Vec<u32>,
   pub nest_pipeline: Option<Node>,
   pub root_of_rec: Vec<(u32, usize)>,
 }
@@ -162,6 +167,9 @@ impl RefWorld {
       nests: vec![],
       feeds: vec![],
       sub_snaps: vec![],
+      self_unsubs: vec![],
+      subscribe_returned: vec![],
+      inner_unsubscribed: vec![],
       nest_pipeline: None,
       root_of_rec: vec![],
     }
@@ -198,6 +206,7 @@ impl RefWorld {
     self.roots.push(root);
     self.root_of_rec.push((rec, root));
     self.attach(root, 0, p);
+    self.subscribe_returned.push(rec);
     root
   }
   pub fn unsubscribe_root(&mut self, root: usize) {
@@ -464,6 +473,9 @@ impl RefWorld {
   }
 
   fn record(&mut self, rec: u32, ev: Ev) {
+    if self.inner_unsubscribed.contains(&rec) {
+      return;
+    }
     self.out.push((rec, ev.clone()));
     self.all.push((rec, ev.clone()));
     if rec % 100 == 0 && !self.nests.is_empty() {
@@ -492,6 +504,23 @@ impl RefWorld {
       }
       for (src, e) in fire {
         self.hot_emit(src, e);
+      }
+    }
+    if rec % 100 == 0 && !self.self_unsubs.is_empty() {
+      let items = self.all.iter().filter(|e| e.0 == rec && !e.1.is_terminal()).count();
+      let mut hit = false;
+      for f in self.self_unsubs.iter_mut() {
+        if f.0 == rec && !f.2 && f.1.matches(&ev, items) {
+          f.2 = true;
+          hit = true;
+        }
+      }
+      if hit {
+        // only once subscribe() has returned does the subscriber hold its Subscription
+        let root = self.root_of_rec.iter().find(|x| x.0 == rec).map(|x| x.1);
+        if let (Some(root), true) = (root, self.subscribe_returned.contains(&rec)) {
+          self.unsubscribe_root(root);
+        }
       }
     }
   }
@@ -532,6 +561,12 @@ impl RefWorld {
       }
       Op::MapToAny | Op::ObserveOnDefault | Op::SubscribeOnDefault | Op::MatDemat | Op::Timestamp | Op::RefCount | Op::ReplayConn
       | Op::WindowFlat(_) | Op::GroupByParityFlat => self.emit(id, ev),
+      Op::DematInBand(c, e) => match ev {
+        // emit() of a terminal cancels the input
+        N(D::I(k)) if k == c => self.emit(id, C),
+        N(D::I(k)) if k == e => self.emit(id, E(40 + k)),
+        o => self.emit(id, o),
+      },
       Op::TimeInterval => match ev {
         N(_) => self.emit(id, N(D::U)),
         o => self.emit(id, o),
